@@ -166,7 +166,8 @@ def C49(ctx):
                     "of the failing op); each case executed on a LedgerSimulator through a native test blueprint under "
                     "SystemOverrides.limit_parameters. T: %d seeded random programs under random tight configurations and %d "
                     "seeded LimitsModule call sequences (process_io_access / process_substate_key / process_substate_value) "
-                    "validated by TraceLimits.tla. distinct = distinct (shape, configuration, program) cases + distinct recorded runs"
+                    "validated by TraceLimits.tla (observed outcome = Outcome; a successful run shows exactly the program's events and logs "
+                    "and every count/size within the configured limits). distinct = distinct (shape, configuration, program) cases + distinct recorded runs"
                     % (4 if q else 5, "" if q else "; all ordered triples", n, units)}
 
 
